@@ -16,6 +16,7 @@ RULE += " " + 'Half of the cases run under random selection options (-d/-tod/-t/
 RULE += " " + 'A request ledger spies Data.get_scores while EVERY metric runs for every input (all arrays fetched for one (input, axis, slice) evaluation have one common length, the same for all inputs) and metric.get_p / get_q (cases entering a probabilistic score); crossing threshold probabilities occur; the metamorphic perturbation hits an input at a random position and uses -m fss on an unevenly dense station network in part of the cases.'
 RULE += " " + "Rounds 9-10: the Brier family is evaluated on each dataset's common cases with exact 0/1 probabilities planted in single files."
 RULE += " " + 'Rounds 11-12: half of the deterministic cases run under -T h -Tagg f (an incomplete window in one file removes the case everywhere); obsfcst tables against the reference on the common cases.'
+RULE += " " + 'Rounds 13-14: 40 % of the cases keep one file name in different directories (expA/fcst expB/fcst, also the climatology).'
 ASSUMPTIONS = ["observations agree between files wherever several files have them (files describe the same truth)",
                "all inputs of an ensemble request have the same number of members"]
 REQUIRED_COUNTERS = ["get_scores_compared", "cross_input_equal_checks", "metamorphic_pairs", "count_csv_rows", "whole_array_checks"]
